@@ -61,6 +61,7 @@ def run_case(case):
             return res
         scroll0 = (term.scrolls_main, term.scrolls_alt)
         prev_rows = None
+        persistent = []
         resized = False
         rendered_size = (h, w)  # the window reads the size when it is first used
         nsteps = 0
@@ -85,6 +86,10 @@ def run_case(case):
                 if e is not None:
                     continue
                 res.label("fsarray_arg")
+            elif case.get("reuse"):
+                persistent[:] = [v for v, _ in vals]  # same list object as in the previous render, edited in place
+                array = persistent
+                res.label("same_list_object_reused")
             else:
                 array = [v for v, _ in vals]
             cur = [min(op["cursor"][0], h - 1), min(op["cursor"][1], w - 1)]
@@ -177,8 +182,10 @@ def shorter(spec):
 
 @st.composite
 def history(draw):
-    h, w = draw(st.integers(1, 6)), draw(st.integers(1, 8))
-    case = {"h": h, "w": w, "hide_cursor": draw(st.booleans()), "junk": draw(st.integers(0, 20)), "steps": []}
+    h, w = draw(st.one_of(st.integers(1, 6), st.integers(1, 6), st.sampled_from([10, 24, 6]))), draw(st.one_of(st.integers(1, 8), st.integers(1, 8), st.sampled_from([10, 40, 6])))
+    case = {"h": h, "w": w, "hide_cursor": draw(st.booleans()), "junk": draw(st.integers(0, 20)), "reuse": draw(st.sampled_from([False, False, True])), "steps": []}
+    same_cursor = draw(st.booleans())
+    last_cur = None
     prev = []
     just_resized = False
     for _ in range(draw(st.integers(1, 10))):
@@ -208,8 +215,11 @@ def history(draw):
                 ln = draw(st.sampled_from([0, 1, max(w - 1, 0), w, w, w + 1, w + 3, max(w // 2, 0)]))
                 rows.append(draw(make_row(ln)))
         just_resized = False
-        case["steps"].append({"op": "render", "rows": rows, "as": draw(st.sampled_from(["list", "list", "fsarray"])),
-                              "cursor": [draw(st.integers(0, h - 1)), draw(st.integers(0, w - 1))]})
+        cur = [draw(st.integers(0, h - 1)), draw(st.integers(0, w - 1))]
+        if same_cursor and last_cur is not None and last_cur[0] < h and last_cur[1] < w:
+            cur = last_cur
+        last_cur = cur
+        case["steps"].append({"op": "render", "rows": rows, "as": draw(st.sampled_from(["list", "list", "fsarray"])), "cursor": cur})
         prev = rows
     return case
 
